@@ -55,6 +55,29 @@ def find_sites(f):
     return out
 
 
+def _reaches_block_without(f, start, targets, barriers):
+    """is one of the target blocks reachable from the element position start=(bid, idx) without executing a barrier element?"""
+    b0, i0 = start
+    es = f.elems(b0)
+    for e in es[i0 + 1:]:
+        if any(e is c for c in barriers):
+            return False
+    seen = set()
+    st = [to for to, lab in f.succs(b0)]
+    while st:
+        b = st.pop()
+        if b in seen:
+            continue
+        seen.add(b)
+        if b in targets:
+            return True
+        if any(any(e is c for c in barriers) for e in f.elems(b)):
+            continue
+        for to, lab in f.succs(b):
+            st.append(to)
+    return False
+
+
 def run(ctx):
     prog = ctx.prog
     cg = callgraph(ctx)
@@ -254,6 +277,41 @@ def run(ctx):
             follows = any(x[0] == b and x[1] < i for x in elem_ins) or any(cfg.reaches_without(f, (x[0], x[1]), lambda el, e=e: el is e, lambda el: False) is not None and x[0] in [bb for h, body in cfg.loop_blocks(f) for bb in body] for x in elem_ins)
             notfirst = any(re.fullmatch(r"!first|!is_first|!\w*first\w*", s0) for s0 in shown)
             ctx.check(notfirst or follows, "R17.3", f, "no-leading-infix", "the infix at line %s can be written before any element" % e.get("ln"), (f, e.get("ln")))
+        # (3) no missing infix: the flag that holds the infix back ahead of the first written element only ever goes from true to false.
+        # Inside the loop it is assigned the literal `false`, nothing else (`first = text.empty()` re-arms it after an empty element: "a", "", "b" -> "ab"),
+        # and an element known to be non-empty is not written without clearing it before the next round
+        loop_bl = set(bb for h, body in cfg.loop_blocks(f) for bb in body)
+        flags = set()
+        for (b, i, e, what) in infix_ins:
+            for g in (before.get((b, i)) or frozenset()):
+                m = re.fullmatch(r"!([A-Za-z_]\w*)", logic.show(g))
+                if m:
+                    flags.add(m.group(1))
+        for fl in sorted(flags):
+            clears = []
+            for b, i, e in f.roots():
+                if b not in loop_bl:
+                    continue
+                for y in walk(e["expr"], into_sc=False):
+                    if y.get("k") == "bin" and y.get("op") in ("=", "|=", "&=", "^=") and fmt(ir.unwrap(y["l"])) == fl:
+                        r = ir.unwrap(y["r"])
+                        lit_false = y["op"] == "=" and isinstance(r, dict) and r.get("k") == "lit" and r.get("v") in (False, 0)
+                        ctx.check(lit_false, "R17.3", f, "infix-flag-only-cleared:%s" % fl,
+                                  "the flag `%s` that holds the infix back is assigned `%s` inside the loop: it can become true again after an element has been written, the next element is glued to it without the infix"
+                                  % (fl, fmt(y)[:50]), (f, e.get("ln")), why_ok=fmt(y))
+                        if lit_false:
+                            clears.append(e)
+            for (b, i, e, what) in elem_ins:
+                if b not in loop_bl:
+                    continue
+                st = [logic.show(g) for g in (before.get((b, i)) or frozenset())]
+                if not any(re.fullmatch(r"!([\w@]+)(\.str\(\))?\.empty\(\)", s0) for s0 in st):
+                    continue
+                heads = [h for h, body in cfg.loop_blocks(f) if b in body]
+                # a cleared flag on the way round: from the insertion, the loop head is not reachable without passing a clearing assignment
+                rounds = _reaches_block_without(f, (b, i), set(heads), clears)
+                ctx.check(bool(clears) and not rounds, "R17.3", f, "infix-flag-cleared-after-element:%s" % fl,
+                          "after writing a non-empty element at line %s the loop can start its next round with `%s` still true: the following element is written without the infix" % (e.get("ln"), fl), (f, e.get("ln")))
         # no trailing infix: an infix insertion is always followed by an element insertion before the loop can end
         for (b, i, e, what) in infix_ins:
             p = cfg.reaches_without(f, (b, i), cfg.EXIT, lambda el: any(el is x[2] for x in elem_ins))
